@@ -837,7 +837,8 @@ func (c *checker) movedBy(class, what string, got, prev []rcall, left mat, tol f
 
 // contentBounds: bounds of the layer's own geometry under its recorded matrix, by the oracle's
 // dense evaluation. ok=false when the layer has no extent that the statement speaks about.
-func contentBounds(l rcall) (lo, hi oracle.Pt, ok bool) {
+// contentBounds: the extent of a layer in canvas space; with tips the tips of its miter joins are included.
+func contentBounds(l rcall, withTips bool) (lo, hi oracle.Pt, ok bool) {
 	var pts []oracle.Pt
 	switch l.kind {
 	case kPath:
@@ -856,6 +857,13 @@ func contentBounds(l rcall) (lo, hi oracle.Pt, ok bool) {
 		for _, pl := range pls {
 			pts = append(pts, pl.P...)
 		}
+		if obsHasStroke(l.style) {
+			body, tips := strokeExtentPoints(l, pls)
+			pts = append(pts, body...)
+			if withTips {
+				pts = append(pts, tips...)
+			}
+		}
 	case kImage:
 		sz := l.img.Bounds().Size()
 		pts = []oracle.Pt{{X: 0, Y: 0}, {X: float64(sz.X), Y: 0}, {X: float64(sz.X), Y: float64(sz.Y)}, {X: 0, Y: float64(sz.Y)}}
@@ -871,6 +879,80 @@ func contentBounds(l rcall) (lo, hi oracle.Pt, ok bool) {
 		hi.X, hi.Y = math.Max(hi.X, x), math.Max(hi.Y, y)
 	}
 	return lo, hi, true
+}
+
+// strokeExtentPoints: points of the stroked region (layer space) that reach furthest out: the two
+// sides of every piece of the centre line at half the width (the body of the stroke, also what a
+// round join covers), and the tip of every miter join between two straight segments that the
+// default joiner (miter limit 4, bevel beyond) draws. Dashes only remove parts of this.
+func strokeExtentPoints(l rcall, pls []oracle.Polyline) (out, tips []oracle.Pt) {
+	hw := l.style.StrokeWidth / 2
+	for _, pl := range pls {
+		for i := 0; i+1 < len(pl.P); i++ {
+			a, b := pl.P[i], pl.P[i+1]
+			d := b.Sub(a)
+			n := d.Len()
+			if n == 0 {
+				continue
+			}
+			nx, ny := -d.Y/n*hw, d.X/n*hw
+			out = append(out, oracle.Pt{X: a.X + nx, Y: a.Y + ny}, oracle.Pt{X: a.X - nx, Y: a.Y - ny}, oracle.Pt{X: b.X + nx, Y: b.Y + ny}, oracle.Pt{X: b.X - nx, Y: b.Y - ny})
+		}
+	}
+	mj, ok := l.style.StrokeJoiner.(canvas.MiterJoiner)
+	if !ok || len(l.style.Dashes) > 0 {
+		return out, nil
+	}
+	if _, bevel := mj.GapJoiner.(canvas.BevelJoiner); !bevel || math.IsNaN(mj.Limit) {
+		return out, nil
+	}
+	sps, err := oracle.Decode(l.data)
+	if err != nil {
+		return out, nil
+	}
+	for _, sp := range sps {
+		var segs []oracle.Seg
+		for _, sg := range sp.Segs {
+			if sg.Kind != oracle.CmdLine && sg.Kind != oracle.CmdClose {
+				segs = nil // a curve: its joins are not modelled
+				break
+			}
+			if sg.P0 != sg.P1 {
+				segs = append(segs, sg)
+			}
+		}
+		for i := range segs {
+			j := i + 1
+			if j == len(segs) {
+				if !sp.Closed {
+					break
+				}
+				j = 0
+			}
+			d0, d1 := segs[i].P1.Sub(segs[i].P0), segs[j].P1.Sub(segs[j].P0)
+			l0, l1 := d0.Len(), d1.Len()
+			u0, u1 := oracle.Pt{X: d0.X / l0, Y: d0.Y / l0}, oracle.Pt{X: d1.X / l1, Y: d1.Y / l1}
+			cross, dot := u0.Cross(u1), u0.X*u1.X+u0.Y*u1.Y
+			if math.Abs(cross) < 1e-9 {
+				continue // straight on, or a reversal (bevel)
+			}
+			half := math.Atan2(math.Abs(cross), dot) / 2 // half the turning angle
+			ml := hw / math.Cos(half)                    // vertex to miter tip
+			if ml > math.Max(mj.Limit, 1.001)*hw {
+				continue // beyond the limit: bevel, within the body
+			}
+			// the tip lies on the outer side, along the sum of the outward normals
+			side := 1.0
+			if cross > 0 { // left turn: the outer side is on the right
+				side = -1
+			}
+			bx, by := side*(-u0.Y-u1.Y), side*(u0.X+u1.X)
+			bl := math.Hypot(bx, by)
+			v := segs[i].P1
+			tips = append(tips, oracle.Pt{X: v.X + bx/bl*ml, Y: v.Y + by/bl*ml})
+		}
+	}
+	return out, tips
 }
 
 func (c *checker) canvasOps(cv *canvas.Canvas, list0 []rcall) {
@@ -914,7 +996,7 @@ func (c *checker) canvasOps(cv *canvas.Canvas, list0 []rcall) {
 	any := false
 	slack := 0.0
 	for i, l := range list3 {
-		lo, hi, ok := contentBounds(l)
+		lo, hi, ok := contentBounds(l, false)
 		if !ok {
 			r.Outcome("fit:layer-without-checkable-extent")
 			continue
@@ -922,7 +1004,11 @@ func (c *checker) canvasOps(cv *canvas.Canvas, list0 []rcall) {
 		any = true
 		const eps = 1e-9
 		if lo.X < fitMargin-eps || lo.Y < fitMargin-eps || hi.X > w-fitMargin+eps || hi.Y > h-fitMargin+eps {
-			c.fail("fit-containment", fmt.Sprintf("after Fit(%g) the canvas is %g x %g but layer %d (%v) spans (%.12g,%.12g)-(%.12g,%.12g)", fitMargin, w, h, i, l, lo.X, lo.Y, hi.X, hi.Y))
+			c.fail("fit-containment", fmt.Sprintf("after Fit(%g) the canvas is %g x %g but layer %d (%v) spans (%.12g,%.12g)-(%.12g,%.12g) (centre line and the stroke at half its width to either side)", fitMargin, w, h, i, l, lo.X, lo.Y, hi.X, hi.Y))
+			return
+		}
+		if tlo, thi, _ := contentBounds(l, true); tlo.X < fitMargin-eps || tlo.Y < fitMargin-eps || thi.X > w-fitMargin+eps || thi.Y > h-fitMargin+eps {
+			c.fail("fit-containment:miter-tip", fmt.Sprintf("after Fit(%g) the canvas is %g x %g but with the tips of its miter joins layer %d (%v) spans (%.12g,%.12g)-(%.12g,%.12g)", fitMargin, w, h, i, l, tlo.X, tlo.Y, thi.X, thi.Y))
 			return
 		}
 		slack = math.Max(slack, math.Max(math.Max(lo.X-fitMargin, lo.Y-fitMargin), math.Max(w-fitMargin-hi.X, h-fitMargin-hi.Y)))
